@@ -1770,3 +1770,383 @@ Proof.
   rewrite (fmt_run_lines cfg (fmt_run cfg r) m0 ms S2), He.
   rewrite (fmt_lines_idem cfg l0 ls m0 ms EM). symmetry. exact E.
 Qed.
+
+(* ====================================================================== F at the end of the file *)
+(* ---------- more about lines ---------- *)
+Lemma split_nl_app_gen x y :
+  split_nl (x ++ y) =
+  removelast (split_nl x) ++ [last (split_nl x) [] ++ hd [] (split_nl y)] ++ tl (split_nl y).
+Proof.
+  induction x as [|c x IH].
+  - cbn [app split_nl removelast last]. destruct (split_nl y) as [|l t] eqn:E; [destruct (split_nl_nonempty _ E)|]. reflexivity.
+  - cbn [app split_nl]. destruct (c =? NL).
+    + rewrite IH. destruct (split_nl x) as [|l ls] eqn:E; [destruct (split_nl_nonempty _ E)|].
+      change (removelast ([] :: l :: ls)) with ([] :: removelast (l :: ls)).
+      change (last ([] :: l :: ls) []) with (last (l :: ls) []). reflexivity.
+    + rewrite IH. destruct (split_nl x) as [|l ls] eqn:E; [destruct (split_nl_nonempty _ E)|].
+      destruct ls as [|l2 ls].
+      * reflexivity.
+      * change (removelast ((c :: l) :: l2 :: ls)) with ((c :: l) :: removelast (l2 :: ls)).
+        change (removelast (l :: l2 :: ls)) with (l :: removelast (l2 :: ls)).
+        change (last ((c :: l) :: l2 :: ls) []) with (last (l2 :: ls) []).
+        change (last (l :: l2 :: ls) []) with (last (l2 :: ls) []). reflexivity.
+Qed.
+
+Lemma map_last_snoc f l x : map_last f (l ++ [x]) = map (f false) l ++ [f true x].
+Proof.
+  induction l as [|a l IH]; [reflexivity|]. cbn [app map_last map].
+  assert (E : is_nil (l ++ [x]) = false) by (destruct l; reflexivity). rewrite E, IH. reflexivity.
+Qed.
+
+Lemma map_last_fix_inv f L : map_last f L = L ->
+  (forall x, In x (removelast L) -> f false x = x) /\ (L <> [] -> f true (last L []) = last L []).
+Proof.
+  induction L as [|a L IH]; intros H; [split; [intros x [] | congruence]|].
+  destruct L as [|b L].
+  - cbn in H. split; [intros x [] | intros _; cbn; congruence].
+  - change (map_last f (a :: b :: L)) with (f false a :: map_last f (b :: L)) in H.
+    remember (map_last f (b :: L)) as Y eqn:EY. injection H as Ha Hr. subst Y.
+    destruct (IH Hr) as [I1 I2]. split.
+    + intros x Hx. change (removelast (a :: b :: L)) with (a :: removelast (b :: L)) in Hx.
+      destruct Hx as [<- | Hx]; [exact Ha | apply I1; exact Hx].
+    + intros _. change (last (a :: b :: L) []) with (last (b :: L) []). apply I2. discriminate.
+Qed.
+
+Lemma joinl_snoc L x : L <> [] -> joinl (L ++ [x]) = joinl L ++ NL :: x.
+Proof.
+  destruct L as [|l ls]; [congruence|]. intros _. cbn [app joinl]. rewrite flat_app, <- app_assoc.
+  cbn [flat map concat]. rewrite app_nil_r. reflexivity.
+Qed.
+
+Lemma trail_nl_all s : s <> [] -> forallb is_sp_nl s = true -> trail_nl s = [NL].
+Proof. destruct s; [congruence|]. intros _ H. cbn [trail_nl]. rewrite H. reflexivity. Qed.
+
+Lemma trail_nl_core a c b : is_sp_nl c = false -> forallb is_sp_nl b = true ->
+  trail_nl (a ++ c :: b) = a ++ c :: (if is_nil b then [] else [NL]).
+Proof.
+  intros Hc Hb. induction a as [|x a IH].
+  - cbn [app trail_nl forallb]. rewrite Hc. cbn [andb]. f_equal.
+    destruct b as [|y b]; [reflexivity|]. cbn [is_nil]. apply trail_nl_all; [discriminate | exact Hb].
+  - cbn [app trail_nl]. assert (F : forallb is_sp_nl (x :: a ++ c :: b) = false).
+    { cbn [forallb]. rewrite forallb_app. cbn [forallb]. rewrite Hc. rewrite andb_false_l, !andb_false_r. reflexivity. }
+    rewrite F. f_equal. exact IH.
+Qed.
+
+(* ---------- blanks appended to a line that is not blank ---------- *)
+Lemma ends_sp_all_sp s : forallb is_sp s = true -> s <> [] -> ends_sp s = true.
+Proof.
+  induction s as [|c s IH]; intros H Hne; [congruence|]. cbn [forallb] in H. apply andb_true_iff in H.
+  destruct H as [Hc Hs]. cbn [ends_sp]. destruct s; [exact Hc | apply IH; [exact Hs | discriminate]].
+Qed.
+
+Lemma ends_sp_not_all_sp v : ends_sp v = false -> v <> [] -> forallb is_sp v = false.
+Proof.
+  intros H Hne. destruct (forallb is_sp v) eqn:F; [|reflexivity]. rewrite (ends_sp_all_sp v F Hne) in H. discriminate.
+Qed.
+
+Lemma rstrip_app_sp v s : forallb is_sp s = true -> ends_sp v = false -> v <> [] -> rstrip (v ++ s) = v.
+Proof.
+  intros Hs. induction v as [|c v IH]; intros He Hne; [congruence|].
+  assert (F : forallb is_sp ((c :: v) ++ s) = false).
+  { rewrite forallb_app, (ends_sp_not_all_sp (c :: v) He Hne). reflexivity. }
+  cbn [app rstrip]. cbn [app] in F. rewrite F. f_equal. destruct v as [|d v].
+  - cbn [app]. apply rstrip_all_sp. exact Hs.
+  - apply IH; [exact He | discriminate].
+Qed.
+
+Lemma lstrip_app_nonblank v s : lstrip v <> [] -> lstrip (v ++ s) = lstrip v ++ s.
+Proof.
+  induction v as [|c v IH]; intros H; [cbn in H; congruence|]. unfold lstrip in *. cbn [app span_p] in *.
+  destruct (is_sp c) eqn:E; [|reflexivity].
+  destruct (span_p is_sp v) as [n t] eqn:E1. destruct (span_p is_sp (v ++ s)) as [n2 t2] eqn:E2.
+  cbn [snd] in *. apply IH. exact H.
+Qed.
+
+Lemma starts2_app_sp x u s : (x =? SP) = false -> u <> [] -> forallb is_sp s = true ->
+  starts2 x (u ++ s) = starts2 x u.
+Proof.
+  intros Hx Hu Hs. destruct u as [|a [|b u]]; [congruence | | reflexivity].
+  cbn [app starts2]. destruct s as [|c s]; [reflexivity|]. cbn [forallb] in Hs. apply andb_true_iff in Hs.
+  destruct Hs as [Hc _]. unfold is_sp in Hc. apply Z.eqb_eq in Hc. subst c.
+  rewrite (Z.eqb_sym SP x), Hx, andb_false_r. reflexivity.
+Qed.
+
+Lemma is_cmt_app_sp u s : u <> [] -> forallb is_sp s = true -> is_cmt (u ++ s) = is_cmt u.
+Proof. intros Hu Hs. unfold is_cmt. rewrite !starts2_app_sp by (reflexivity || assumption). reflexivity. Qed.
+
+Lemma reind2_app_sp n v s : lstrip v <> [] -> forallb is_sp s = true ->
+  reind2 (repeat SP n) (v ++ s) = reind2 (repeat SP n) v ++ s.
+Proof.
+  intros Hv Hs. rewrite !reind2_spec, (lstrip_app_nonblank v s Hv), (is_cmt_app_sp _ s Hv Hs).
+  destruct (is_cmt (lstrip v)); [rewrite app_assoc|]; reflexivity.
+Qed.
+
+Lemma head_start_app_sp v s : lstrip v <> [] -> forallb is_sp s = true -> head_start (v ++ s) = head_start v ++ s.
+Proof.
+  intros Hv Hs. rewrite !head_start_spec, (lstrip_app_nonblank v s Hv), (is_cmt_app_sp _ s Hv Hs).
+  destruct (is_cmt (lstrip v)); reflexivity.
+Qed.
+
+Lemma head_xx_app_sp x rep v s : (x =? SP) = false -> lstrip v <> [] -> forallb is_sp s = true ->
+  head_xx x rep (v ++ s) = head_xx x rep v ++ s.
+Proof.
+  intros Hx Hv Hs. unfold head_xx. rewrite (lstrip_app_nonblank v s Hv), (starts2_app_sp x _ s Hx Hv Hs).
+  destruct (starts2 x (lstrip v)) eqn:S; [|reflexivity].
+  destruct (lstrip v) as [|a [|b t]]; try discriminate. cbn [app skipn]. rewrite <- app_assoc. reflexivity.
+Qed.
+
+Lemma lstrip_nonblank v : forallb is_sp v = false -> lstrip v <> [].
+Proof. intros H E. apply all_sp_lstrip in E. congruence. Qed.
+
+(* the lines of a text made of blanks and line feeds only *)
+Lemma split_nl_spnl b : forallb is_sp_nl b = true -> Forall (fun l => forallb is_sp l = true) (split_nl b).
+Proof.
+  induction b as [|c b IH]; intros H; [repeat constructor|]. cbn [forallb] in H. apply andb_true_iff in H.
+  destruct H as [Hc Hb]. specialize (IH Hb). cbn [split_nl]. destruct (c =? NL) eqn:E.
+  - constructor; [reflexivity | exact IH].
+  - destruct (split_nl b) as [|l t] eqn:S; [destruct (split_nl_nonempty _ S)|]. inversion IH; subst.
+    constructor; [|assumption]. cbn [forallb]. unfold is_sp_nl in Hc. rewrite E, orb_false_r in Hc. unfold is_sp. rewrite Hc. assumption.
+Qed.
+
+(* two empty lines in a row: only the lines before a non-empty line matter *)
+Lemma dbl_cons3 p l' r' : r' <> [] -> dbl (p :: l' :: r') = (is_nil p && is_nil l') || dbl (l' :: r').
+Proof. destruct r'; [congruence | reflexivity]. Qed.
+
+Lemma dbl_swap_tail P x Q x' y : x <> [] -> x' <> [] -> dbl (P ++ x :: Q) = false -> dbl (P ++ [x'; y]) = false.
+Proof.
+  intros Hx Hx'. induction P as [|p P IH]; intros H.
+  - reflexivity.
+  - destruct P as [|p' P''].
+    + cbn [app]. rewrite dbl_cons3 by discriminate. destruct x'; [congruence|]. cbn [is_nil]. rewrite andb_false_r. reflexivity.
+    + cbn [app] in *. rewrite dbl_cons3 by (destruct P''; discriminate).
+      rewrite dbl_cons3 in H by (destruct P''; discriminate).
+      apply orb_false_iff in H. destruct H as [H1 H2]. rewrite H1. cbn [orb]. apply IH. exact H2.
+Qed.
+
+(* ---------- what "the lines are a fixed point" gives, line by line ---------- *)
+Lemma fmt_tail_fixed cfg l0 ls m0 ms : fmt_lines cfg l0 ls = m0 :: ms -> fmt_tail cfg ms = ms.
+Proof.
+  unfold fmt_lines. intros [= _ Hs]. set (t := fmt_tail cfg ls) in *.
+  rewrite fmt_tail_lines. unfold indent_bytes. apply map_last_fix.
+  - intros x Hx. rewrite <- Hs, sq_eq in Hx. apply sq'_init_In in Hx. subst t.
+    rewrite fmt_tail_lines, removelast_map_last in Hx. apply in_map_iff in Hx.
+    destruct Hx as (y & <- & _). apply tail_line_idem.
+  - intros Hne. rewrite <- Hs. rewrite <- Hs in Hne.
+    assert (Ht : t <> []) by (intros E; apply Hne; rewrite E; reflexivity).
+    rewrite last_sq by exact Ht. subst t. rewrite fmt_tail_lines in *.
+    assert (Hls : ls <> []) by (intros E; apply Ht; rewrite E; reflexivity).
+    rewrite last_map_last by exact Hls. apply tail_line_idem.
+Qed.
+
+Lemma fmt_lines_fixed_facts cfg l0 ls m0 ms : fmt_lines cfg l0 ls = m0 :: ms ->
+  fmt_tail cfg ms = ms /\ sq ms = ms /\
+  (if f_at_start cfg then dollar_head (fmt_head cfg m0 ms) ms else fmt_head cfg m0 ms) = m0.
+Proof.
+  intros H. pose proof (fmt_tail_fixed cfg l0 ls m0 ms H) as Et.
+  pose proof (fmt_lines_idem cfg l0 ls m0 ms H) as Hi. unfold fmt_lines in Hi. rewrite Et in Hi.
+  injection Hi as Hh Hs. auto.
+Qed.
+
+Lemma tail_line_nil ind : tail_line ind true [] = ind.
+Proof. reflexivity. Qed.
+
+Lemma sq_single l : sq [l] = [l].
+Proof. destruct l; reflexivity. Qed.
+
+Lemma all_sp_reind2 n v : forallb is_sp (reind2 (repeat SP n) v) = forallb is_sp v.
+Proof.
+  rewrite reind2_spec. destruct (is_cmt (lstrip v)) eqn:C; [|reflexivity].
+  rewrite forallb_app, all_sp_repeat. cbn [andb].
+  assert (Hn : lstrip v <> []) by (intros E; rewrite E in C; discriminate).
+  destruct (forallb is_sp v) eqn:F; [apply all_sp_lstrip in F; congruence|].
+  pose proof (lstrip_head v) as Hh. destruct (lstrip v) as [|c t]; [congruence|]. cbn [forallb]. rewrite Hh. reflexivity.
+Qed.
+
+Lemma last_snoc {A} (l : list A) x d : last (l ++ [x]) d = x.
+Proof. apply last_last. Qed.
+
+Lemma in_removelast_app {A} (x : A) l y z : In x l -> In x (removelast (l ++ y :: z)).
+Proof.
+  intros H. induction l as [|a l IH]; [destruct H|]. cbn [app].
+  rewrite removelast_cons by (destruct l; discriminate). destruct H as [-> | H]; [left; reflexivity | right; apply IH; exact H].
+Qed.
+
+Lemma dollar_head_keep h t : is_nil t = false -> is_single_empty t = false -> dollar_head h t = h.
+Proof. intros H1 H2. unfold dollar_head. rewrite H1, H2, andb_false_r. reflexivity. Qed.
+
+Lemma fmt_head_tail_irrelevant cfg h t1 t2 : is_nil t1 = is_nil t2 -> fmt_head cfg h t1 = fmt_head cfg h t2.
+Proof. intros H. unfold fmt_head. rewrite H. reflexivity. Qed.
+
+(* the text of the file's last run after its trailing white space was cut (K = a ++ [c]) and one line feed
+   appended: its lines are K's lines, unchanged, and the line that holds the indentation *)
+Lemma fmt_lines_end_fixed cfg m0 ms a c b :
+  Forall noNL (m0 :: ms) ->
+  fmt_tail cfg ms = ms -> sq ms = ms ->
+  (if f_at_start cfg then dollar_head (fmt_head cfg m0 ms) ms else fmt_head cfg m0 ms) = m0 ->
+  joinl (m0 :: ms) = (a ++ [c]) ++ b -> is_sp_nl c = false -> forallb is_sp_nl b = true ->
+  exists k0 ks, split_nl (a ++ [c]) = k0 :: ks /\
+                fmt_lines cfg k0 (ks ++ [[]]) = (k0 :: ks) ++ [indent_bytes cfg].
+Proof.
+  intros HM Et Es Eh EJ Hc Hb.
+  assert (HcSP : c <> SP) by (intros ->; discriminate).
+  assert (HcNL : c <> NL) by (intros ->; discriminate).
+  (* the lines of K and of K ++ b *)
+  pose proof (split_joinl m0 ms HM) as HL. rewrite EJ in HL.
+  rewrite split_nl_app_gen in HL.
+  destruct (split_nl b) as [|spl R] eqn:Eb; [destruct (split_nl_nonempty _ Eb)|].
+  pose proof (split_nl_spnl b Hb) as Hbl. rewrite Eb in Hbl. inversion Hbl as [|? ? Hspl HR]; subst.
+  cbn [hd tl] in HL.
+  assert (EK : split_nl (a ++ [c]) = removelast (split_nl a) ++ [last (split_nl a) [] ++ [c]]).
+  { rewrite split_nl_app_gen. cbn [split_nl]. apply Z.eqb_neq in HcNL. rewrite HcNL. cbn [hd tl]. rewrite app_nil_r. reflexivity. }
+  set (I := removelast (split_nl a)) in *. set (lastK := last (split_nl a) [] ++ [c]) in *.
+  rewrite EK in HL. rewrite removelast_last, last_snoc in HL.
+  assert (HlK1 : lastK <> []) by (unfold lastK; destruct (last (split_nl a) []); discriminate).
+  assert (HlK2 : ends_sp lastK = false).
+  { unfold lastK. rewrite ends_sp_app by discriminate. cbn. apply Z.eqb_neq. exact HcSP. }
+  assert (HlK3 : forallb is_sp lastK = false) by (apply ends_sp_not_all_sp; assumption).
+  assert (HlK4 : lstrip lastK <> []) by (apply lstrip_nonblank; exact HlK3).
+  set (n := (Z.to_nat (f_width cfg) * Z.to_nat (f_depth cfg))%nat).
+  assert (Eind : indent_bytes cfg = repeat SP n) by reflexivity.
+  assert (Espl : ends_sp (lastK ++ spl) = false -> spl = []).
+  { intros H. destruct spl as [|s0 spl']; [reflexivity|]. rewrite ends_sp_app in H by discriminate.
+    rewrite ends_sp_all_sp in H by (assumption || discriminate). discriminate. }
+  rewrite EK. destruct I as [|i0 I'] eqn:EI.
+  - (* K is a single line *)
+    cbn [app] in HL. injection HL as Em0 Ems. exists lastK, []. split; [reflexivity|].
+    cbn [app]. unfold fmt_lines. rewrite fmt_tail_lines. cbn [map_last is_nil]. rewrite tail_line_nil, sq_single.
+    assert (EH : fmt_head cfg lastK [[]] = lastK).
+    { unfold fmt_head. cbn [is_nil]. rewrite (rstrip_fixed lastK HlK2).
+      unfold fmt_head in Eh. rewrite <- Em0 in Eh.
+      destruct (f_at_start cfg) eqn:A.
+      - fold (head_start (if is_nil ms then lastK ++ spl else rstrip (lastK ++ spl))) in Eh. fold (head_start lastK).
+        assert (Eh' : head_start (if is_nil ms then lastK ++ spl else rstrip (lastK ++ spl)) = lastK ++ spl).
+        { unfold dollar_head in Eh. destruct (forallb is_sp _ && _); [|exact Eh].
+          destruct lastK; [congruence | discriminate]. }
+        destruct (is_nil ms).
+        + rewrite head_start_app_sp in Eh' by assumption. apply app_inv_tail in Eh'. exact Eh'.
+        + rewrite rstrip_app_sp in Eh' by assumption.
+          assert (S0 : spl = []) by (apply Espl; rewrite <- Eh'; apply ends_sp_head_start; exact HlK2).
+          rewrite S0, app_nil_r in Eh'. exact Eh'.
+      - destruct (is_nil ms).
+        + rewrite head_xx_app_sp in Eh by (reflexivity || assumption). apply app_inv_tail in Eh. exact Eh.
+        + rewrite rstrip_app_sp in Eh by assumption.
+          assert (S0 : spl = []).
+          { apply Espl. rewrite <- Eh. apply (ends_sp_head_xx DASH [SP; SP]); [reflexivity | exact HlK2]. }
+          rewrite S0, app_nil_r in Eh. exact Eh. }
+    rewrite EH. destruct (f_at_start cfg); [|reflexivity].
+    unfold dollar_head. rewrite HlK3. reflexivity.
+  - (* K has several lines: the first one is the first line of the fixed point *)
+    cbn [app] in HL. injection HL as Em0 Ems. subst i0. exists m0, (I' ++ [lastK]). split; [reflexivity|].
+    (* the tail *)
+    assert (Et2 : fmt_tail cfg ((I' ++ [lastK]) ++ [[]]) = (I' ++ [lastK]) ++ [indent_bytes cfg]).
+    { rewrite fmt_tail_lines, map_last_snoc, tail_line_nil. f_equal.
+      rewrite fmt_tail_lines in Et. destruct (map_last_fix_inv _ _ Et) as [F1 F2].
+      rewrite map_app. cbn [map]. f_equal.
+      - rewrite <- (map_id I') at 2. apply map_ext_in. intros x Hx. apply F1. rewrite <- Ems.
+        apply in_removelast_app. exact Hx.
+      - f_equal. unfold tail_line, indent_last. cbn [andb]. rewrite (rstrip_fixed lastK HlK2). rewrite Eind in *.
+        destruct R as [|r0 R'].
+        + (* lastK ++ spl is the last line of the fixed point *)
+          assert (Hl : last ms [] = lastK ++ spl) by (rewrite <- Ems; apply last_last).
+          assert (Hne : ms <> []) by (rewrite <- Ems; destruct I'; discriminate).
+          specialize (F2 Hne). rewrite Hl in F2. unfold tail_line, indent_last in F2. cbn [andb] in F2.
+          rewrite reind2_app_sp in F2 by assumption.
+          rewrite forallb_app, all_sp_reind2, HlK3 in F2. cbn [andb] in F2. apply app_inv_tail in F2. exact F2.
+        + (* lastK ++ spl is followed by further (blank) lines *)
+          assert (Hin : In (lastK ++ spl) (removelast ms)).
+          { rewrite <- Ems. clear. induction I' as [|i I' IH]; cbn [app].
+            - left. reflexivity.
+            - rewrite removelast_cons by (destruct I'; discriminate). right. exact IH. }
+          specialize (F1 _ Hin). unfold tail_line, indent_last in F1. cbn [andb] in F1.
+          rewrite rstrip_app_sp in F1 by assumption.
+          assert (S0 : spl = []) by (apply Espl; rewrite <- F1; apply ends_sp_reind2; exact HlK2).
+          rewrite S0, app_nil_r in F1. exact F1. }
+    unfold fmt_lines. rewrite Et2.
+    (* no squeeze *)
+    assert (Esq : sq ((I' ++ [lastK]) ++ [indent_bytes cfg]) = (I' ++ [lastK]) ++ [indent_bytes cfg]).
+    { rewrite sq_eq. apply sq'_fixed. rewrite <- app_assoc. cbn [app].
+      apply (dbl_swap_tail I' (lastK ++ spl) R lastK (indent_bytes cfg)); [destruct lastK; [congruence | discriminate] | exact HlK1 |].
+      rewrite Ems. rewrite <- Es, sq_eq. apply dbl_sq'. }
+    rewrite Esq. cbn [app]. f_equal.
+    (* the head *)
+    assert (N1 : is_nil ms = false) by (rewrite <- Ems; destruct I'; reflexivity).
+    assert (N2 : is_single_empty ms = false).
+    { rewrite <- Ems. destruct I' as [|i I'']; cbn [app].
+      - destruct lastK; [congruence|]. reflexivity.
+      - destruct I''; cbn [app]; destruct i; reflexivity. }
+    assert (N3 : is_nil ((I' ++ [lastK]) ++ [[]]) = false) by (destruct I'; reflexivity).
+    assert (N4 : is_single_empty ((I' ++ [lastK]) ++ [indent_bytes cfg]) = false).
+    { destruct I' as [|i [|i2 I3]]; cbn [app]; [destruct lastK | destruct i | destruct i]; reflexivity. }
+    rewrite (fmt_head_tail_irrelevant cfg m0 _ ms) by (rewrite N1, N3; reflexivity).
+    destruct (f_at_start cfg).
+    + rewrite dollar_head_keep in Eh by assumption. rewrite dollar_head_keep; [exact Eh | destruct I'; reflexivity | exact N4].
+    + exact Eh.
+Qed.
+
+Lemma fmt_run_empty cfg : fmt_run cfg [] = [].
+Proof. destruct cfg as [[|] [|] w d]; reflexivity. Qed.
+
+Lemma fmt_run_nl_end cfg : f_at_end cfg = true -> fmt_run cfg [NL] = [NL].
+Proof.
+  intros He.
+  assert (S : split_nl (canon_ws [NL]) = [[]; []]) by reflexivity.
+  rewrite (fmt_run_lines cfg [NL] [] [[]] S), He.
+  unfold fmt_lines. rewrite fmt_tail_lines. cbn [map_last is_nil]. rewrite tail_line_nil, sq_single.
+  assert (EH : fmt_head cfg [] [[]] = []) by (unfold fmt_head; destruct (f_at_start cfg); reflexivity).
+  rewrite EH.
+  assert (ED : (if f_at_start cfg then dollar_head [] [indent_bytes cfg] else []) = [])
+    by (destruct (f_at_start cfg); [unfold dollar_head; destruct (_ && _)|]; reflexivity).
+  rewrite ED. cbn [joinl flat map concat app]. rewrite app_nil_r.
+  apply trail_nl_all; [discriminate|]. cbn [forallb]. unfold indent_bytes.
+  clear. induction (Z.to_nat (f_width cfg) * Z.to_nat (f_depth cfg))%nat; cbn; auto.
+Qed.
+
+Lemma all_spnl_repeat_sp n : forallb is_sp_nl (repeat SP n) = true.
+Proof. induction n; cbn; auto. Qed.
+
+Theorem fmt_run_idempotent_end cfg r : f_at_end cfg = true -> fmt_run cfg (fmt_run cfg r) = fmt_run cfg r.
+Proof.
+  intros He.
+  destruct (split_nl (canon_ws r)) as [|l0 ls] eqn:HS; [destruct (split_nl_nonempty _ HS)|].
+  pose proof (split_nl_noNL (canon_ws r)) as HN. rewrite HS in HN.
+  pose proof (noNL_fmt_lines cfg l0 ls HN) as HM.
+  pose proof (fmt_run_clean cfg r) as Hc.
+  pose proof (fmt_run_lines cfg r l0 ls HS) as E. rewrite He in E.
+  destruct (fmt_lines cfg l0 ls) as [|m0 ms] eqn:EM; [discriminate|].
+  destruct (fmt_lines_fixed_facts cfg l0 ls m0 ms EM) as (Ft & Fs & Fh).
+  destruct (trail_nl_spec (joinl (m0 :: ms))) as [[EJ Eo] | [(HJ1 & HJ2 & Eo) | (a & c & b & EJ & Hc0 & Hb & Eo)]].
+  - rewrite E, Eo. apply fmt_run_empty.
+  - rewrite E, Eo. apply fmt_run_nl_end. exact He.
+  - destruct b as [|b0 b'].
+    + (* no trailing white space at all: the lines themselves are the fixed point *)
+      cbn [is_nil] in Eo. rewrite <- EJ in Eo.
+      assert (Eo2 : fmt_run cfg r = joinl (m0 :: ms)) by (rewrite E; exact Eo).
+      assert (S2 : split_nl (canon_ws (fmt_run cfg r)) = m0 :: ms).
+      { rewrite canon_ws_id by exact Hc. rewrite Eo2. apply split_joinl. exact HM. }
+      rewrite (fmt_run_lines cfg (fmt_run cfg r) m0 ms S2), He.
+      rewrite (fmt_lines_idem cfg l0 ls m0 ms EM). symmetry. exact E.
+    + cbn [is_nil] in Eo.
+      assert (EJ' : joinl (m0 :: ms) = (a ++ [c]) ++ b0 :: b') by (rewrite EJ, <- app_assoc; reflexivity).
+      destruct (fmt_lines_end_fixed cfg m0 ms a c (b0 :: b') HM Ft Fs Fh EJ' Hc0 Hb) as (k0 & ks & EK & EF).
+      assert (Eo2 : fmt_run cfg r = (a ++ [c]) ++ [NL]) by (rewrite E, Eo, <- app_assoc; reflexivity).
+      assert (S2 : split_nl (canon_ws (fmt_run cfg r)) = k0 :: (ks ++ [[]])).
+      { rewrite canon_ws_id by exact Hc. rewrite Eo2, split_nl_app_nl, EK. reflexivity. }
+      rewrite (fmt_run_lines cfg (fmt_run cfg r) k0 (ks ++ [[]]) S2), He, EF.
+      rewrite joinl_snoc by discriminate. rewrite <- EK, joinl_split.
+      rewrite <- app_assoc. cbn [app]. rewrite trail_nl_core; [| exact Hc0 |].
+      * cbn [is_nil]. rewrite Eo2, <- app_assoc. reflexivity.
+      * cbn [forallb]. unfold indent_bytes. rewrite all_spnl_repeat_sp. reflexivity.
+Qed.
+
+Theorem fmt_run_idempotent_all cfg r : fmt_run cfg (fmt_run cfg r) = fmt_run cfg r.
+Proof.
+  destruct (f_at_end cfg) eqn:E; [apply fmt_run_idempotent_end | apply fmt_run_idempotent]; exact E.
+Qed.
+
+(* ---------- a known finding at the very end of the file ----------
+   strip_line_edges keeps the blanks that follow the last line of the run; they cannot be dropped from the
+   norm: at the end of the file an empty run stays empty (no final newline is written) while a run of
+   blanks becomes one newline. *)
+Lemma fmt_run_end_blanks_refuted :
+  exists cfg r1 r2, f_at_end cfg = true /\ rstrip r1 = rstrip r2 /\ fmt_run cfg r1 <> fmt_run cfg r2.
+Proof. exists (mk_fcfg false true 2 0), [], [SP; SP]. split; [reflexivity|]. split; [reflexivity|]. vm_compute. discriminate. Qed.
